@@ -20,8 +20,8 @@ EXTENDS BrokerAbs, Json, IOUtils, TLCExt
 
 Traces == JsonDeserialize(IOEnv.TRACE_FILE)
 
-VARIABLES tid, l, calls, chk, devs, taint, rdl, rdls, dead, unsure, enqAt, ovt, mvAt, hot
-tvars == <<tid, l, calls, chk, devs, taint, rdl, rdls, dead, unsure, enqAt, ovt, mvAt, hot>>
+VARIABLES tid, l, calls, chk, devs, taint, rdl, rdls, dead, unsure, enqAt, ovt, mvAt, hot, retdl
+tvars == <<tid, l, calls, chk, devs, taint, rdl, rdls, dead, unsure, enqAt, ovt, mvAt, hot, retdl>>
 allvars == <<vars, tvars>>
 
 Ev == Traces[tid][l]
@@ -34,16 +34,16 @@ Call(k) == IF k \in DOMAIN calls THEN calls[k] ELSE NoCall
 Done(k) == calls' = [calls EXCEPT ![k].done = TRUE]
 
 TInit == /\ Init
-         /\ tid \in 1..Len(Traces) /\ l = 1 /\ calls = <<>> /\ chk = {} /\ devs = {} /\ taint = {} /\ rdl = [i \in Ids |-> 0] /\ rdls = [i \in Ids |-> 0] /\ dead = {} /\ unsure = {} /\ enqAt = [i \in Ids |-> 0] /\ ovt = [i \in Ids |-> 0] /\ mvAt = [i \in Ids |-> 0] /\ hot = [c \in Consumers |-> [p \in 0..10 |-> 0]]
+         /\ tid \in 1..Len(Traces) /\ l = 1 /\ calls = <<>> /\ chk = {} /\ devs = {} /\ taint = {} /\ rdl = [i \in Ids |-> 0] /\ rdls = [i \in Ids |-> 0] /\ dead = {} /\ unsure = {} /\ enqAt = [i \in Ids |-> 0] /\ ovt = [i \in Ids |-> 0] /\ mvAt = [i \in Ids |-> 0] /\ hot = [c \in Consumers |-> [p \in 0..10 |-> 0]] /\ retdl = [i \in Ids |-> 0]
          /\ TLCSet(tid, 1)
 
 THdr == /\ Is("hdr") /\ Step
         /\ chk' = ToSet(Ev.chk) /\ devs' = ToSet(Ev.devs)
-        /\ UNCHANGED <<vars, calls, taint, rdl, rdls, dead, unsure, enqAt, ovt, mvAt, hot>>
+        /\ UNCHANGED <<vars, calls, taint, rdl, rdls, dead, unsure, enqAt, ovt, mvAt, hot, retdl>>
 
 TCons == /\ Is("cons") /\ Step
          /\ cons' = [cons EXCEPT ![Ev.c] = [on |-> FALSE, q |-> Ev.q, cat |-> Ev.cat, topics |-> ToSet(Ev.topics)]]
-         /\ UNCHANGED <<now, st, loc, meta, holder, origin, deliv, ret, norder, transit, pend, calls, chk, devs, taint, rdl, rdls, dead, unsure, enqAt, ovt, mvAt, hot>>
+         /\ UNCHANGED <<now, st, loc, meta, holder, origin, deliv, ret, norder, transit, pend, calls, chk, devs, taint, rdl, rdls, dead, unsure, enqAt, ovt, mvAt, hot, retdl>>
 
 (* C05 bounded latency: a consume() call of a normal consumer that has been waiting since before *)
 (* message i fell due is not still empty-handed after i's deadline (dl = due + latency bound),    *)
@@ -61,16 +61,16 @@ Starved(t, headOfLine) ==
     \E k \in DOMAIN calls : \E i \in Ids :
         /\ ~(headOfLine /\ loc[i] = U("d") /\ BlockedBehind(i))
         /\ calls[k].op = "consume" /\ ~calls[k].done
-        /\ cons[calls[k].c].cat = "n" /\ cons[calls[k].c].on /\ calls[k].c \notin unsure
+        /\ cons[calls[k].c].cat = "n" /\ cons[calls[k].c].on /\ calls[k].c \notin unsure /\ calls[k].c \notin dead
         /\ calls[k].m.dl # NoTime /\ t > calls[k].m.dl          \* the call has been waiting longer than the bound
         /\ Live(i) /\ holder[i] = NoC /\ Matches(calls[k].c, i) /\ (loc[i] = U("n") \/ loc[i] = U("d"))
-        /\ meta[i].dl # NoTime /\ t > meta[i].dl                \* ... and i has been deliverable longer than the bound
+        /\ LET d == IF meta[i].dl # NoTime THEN meta[i].dl ELSE retdl[i] IN d # NoTime /\ t > d   \* ... and i has been deliverable longer than the bound
         /\ (meta[i].exp = NoTime \/ meta[i].exp >= t)
 
 TTime == /\ Is("time") /\ Step
          /\ Ev.now >= now /\ now' = Ev.now
          /\ ("latency" \in chk => (~Starved(Ev.now, FALSE) \/ (Dev("rabbit_head_of_line") /\ ~Starved(Ev.now, TRUE))))
-         /\ UNCHANGED <<st, loc, meta, holder, origin, deliv, ret, cons, norder, transit, pend, calls, chk, devs, taint, rdl, rdls, dead, unsure, enqAt, ovt, mvAt, hot>>
+         /\ UNCHANGED <<st, loc, meta, holder, origin, deliv, ret, cons, norder, transit, pend, calls, chk, devs, taint, rdl, rdls, dead, unsure, enqAt, ovt, mvAt, hot, retdl>>
 
 TBegin == /\ Is("begin") /\ Step
           /\ calls' = (Ev.k :> [op |-> Ev.op, c |-> Ev.c, i |-> Ev.i, m |-> MetaOf(Ev.m), done |-> FALSE, t0 |-> now, l0 |-> l,
@@ -80,7 +80,7 @@ TBegin == /\ Is("begin") /\ Step
           \* the fate of a message that is in flight while its queue is flushed / deleted is broker-specific (it goes with
           \* the queue now, or later when its holder settles it, or stays): it is followed, but not judged, from here on
           /\ taint' = IF Ev.op = "flush" THEN taint \cup InFlight(Ev.m.q) ELSE taint
-          /\ UNCHANGED <<chk, devs, rdl, rdls, dead, unsure, enqAt, ovt, mvAt, hot>>
+          /\ UNCHANGED <<chk, devs, rdl, rdls, dead, unsure, enqAt, ovt, mvAt, hot, retdl>>
 
 -----------------------------------------------------------------------------
 (* Deviation actions: behaviours of the pinned code that the contract forbids.  They are        *)
@@ -289,6 +289,8 @@ TMove ==
     /\ enqAt' = IF st[Ev.i] = "new" \/ (Call(Ev.k).op = "requeue" /\ Call(Ev.k).i = Ev.i /\ Vec(Ev.v) # Zero) THEN [enqAt EXCEPT ![Ev.i] = now] ELSE enqAt
     /\ ovt' = OvtAfter(Ev.i)
     /\ mvAt' = [mvAt EXCEPT ![Ev.i] = l] /\ hot' = hot
+    \* the latency clock of a message that comes back to a waiting place (returned, reclaimed, re-queued) runs from that moment
+    /\ retdl' = [retdl EXCEPT ![Ev.i] = IF Ev.ldl # 0 THEN Ev.ldl ELSE 0]
     \* (the Redis fetch-window defect, once listed as a known finding, also explains unbounded overtaking)
     /\ (("starve" \in chk /\ ~Dev("redis_lifo_window")) => \A j \in Ids : ovt'[j] <= StarveBound)
 
@@ -334,7 +336,7 @@ TEnd ==
             [] OTHER -> UNCHANGED vars /\ UNCHANGED <<calls, taint>>
     \* a start() that was interrupted may or may not have taken effect: that consumer is not known to be listening
     /\ unsure' = IF (Call(Ev.k).op = "start" /\ Ev.st # "ok") THEN unsure \cup {Call(Ev.k).c} ELSE unsure
-    /\ UNCHANGED <<chk, devs, rdl, rdls, dead, enqAt, ovt, mvAt>>
+    /\ UNCHANGED <<chk, devs, rdl, rdls, dead, enqAt, ovt, mvAt, retdl>>
     \* C15 at the hand-over: the messages a consumer has taken (prefetched) reach its client in the order they were taken -- a
     \* message is not handed over after one of the same priority that the consumer took later (hot: per consumer and priority,
     \* the latest take position among the messages handed over so far; a returned message gets a new position when taken again)
@@ -346,12 +348,12 @@ TEnd ==
 (* full observation of the broker: the contract state must agree with it for every id *)
 TObs == /\ Is("obs") /\ Step
         /\ \A j \in Ids : loc[j] = (IF j <= Len(Ev.v) THEN Vec(Ev.v[j]) ELSE Zero)
-        /\ UNCHANGED <<vars, calls, chk, devs, taint, rdl, rdls, dead, unsure, enqAt, ovt, mvAt, hot>>
+        /\ UNCHANGED <<vars, calls, chk, devs, taint, rdl, rdls, dead, unsure, enqAt, ovt, mvAt, hot, retdl>>
 
 (* the process owning these consumers died without any cleanup *)
 TCrash == /\ Is("crash") /\ Step
           /\ dead' = dead \cup ToSet(Ev.cs)
-          /\ UNCHANGED <<vars, calls, chk, devs, taint, rdl, rdls, unsure, enqAt, ovt, mvAt, hot>>
+          /\ UNCHANGED <<vars, calls, chk, devs, taint, rdl, rdls, unsure, enqAt, ovt, mvAt, hot, retdl>>
 
 TraceConsCfgs == {[c \in Consumers |-> [on |-> FALSE, q |-> 0, cat |-> "n", topics |-> {}]]}
 TNext == THdr \/ TCrash \/ TObs \/ TCons \/ TTime \/ TBegin \/ TMove \/ TEnd
